@@ -25,7 +25,8 @@ RULE = ('configurations: every signed format (1,iw,fw) with iw+fw <= 8 in same-f
         'formats -- reference = the 0/1 flag masked to the wire; composition configurations: the operand wires are two top-level wires (flat), '
         'a parent wire and a wire created inside the user block with the SAME local name (explicit name, or both numbered i0 by LogicHelper) or '
         'a different one, or one wire on both ports (flat and nested), for every format up to 5 bits (7 in thorough), three wide formats and '
-        'mixed-format multiplier triples.  evaluations = block outputs judged.  Non-trivial: both operands non-zero; '
+        'mixed-format multiplier triples; size class: formats of total width 257, 300, 512 and 1000 (same-format, all five blocks, and three '
+        'mixed multiplier triples), every wire width computed independently, boundary x boundary + random operands.  evaluations = block outputs judged.  Non-trivial: both operands non-zero; '
         'distinct by content (configuration, x, y); in the thorough tier only the cases whose content hash is 0 mod 16 are registered, so '
         'distinct_nontrivial is a lower bound there (keeps the merged set small)')
 SHARDS = {'quick': 1, 'thorough': 16}
@@ -228,7 +229,7 @@ def judge(af, bf, rf, x, y, out, stats, flags=(1, 1, 1, 1)):
 
 def bset(w, fw, rnd, nrandom):
     m = (1 << w) - 1
-    s = {0, 1, 2, m, m - 1, 1 << (w - 1), (1 << (w - 1)) - 1, ((1 << (w - 1)) + 1) & m, 0x5555555555555555555555 & m, 0xAAAAAAAAAAAAAAAAAAAAAA & m}
+    s = {0, 1, 2, m, m - 1, 1 << (w - 1), (1 << (w - 1)) - 1, ((1 << (w - 1)) + 1) & m, m // 3, m - m // 3}     # m//3 = 0101..01, m - m//3 = 1010..10 at any width
     if fw < w:
         one = 1 << fw
         s |= {one & m, (one - 1) & m, (one + 1) & m, (-one) & m, (-one - 1) & m, (-one + 1) & m, (one >> 1) & m, (-(one >> 1)) & m, (3 * one >> 1) & m}
@@ -242,6 +243,7 @@ def small_formats(maxsum):
     return [(1, iw, fw) for iw in range(0, maxsum + 1) for fw in range(0, maxsum + 1 - iw)]
 
 
+HUGE = [(1, 128, 128), (1, 0, 256), (1, 149, 150), (1, 255, 256), (1, 300, 699)]
 WIDE = [(1, 15, 16), (1, 7, 24), (1, 31, 32), (1, 0, 15), (1, 0, 31), (1, 16, 16), (1, 3, 60), (1, 8, 8), (1, 11, 0)]
 
 
@@ -270,6 +272,13 @@ def configs(tier, seed):
                        ((1, 7, 8), (1, 7, 8), (1, 15, 16)), ((1, 7, 8), (1, 7, 8), (1, 15, 0)), ((1, 15, 16), (1, 15, 16), (1, 31, 32)),
                        ((1, 15, 16), (1, 15, 16), (1, 7, 8)), ((1, 3, 4), (1, 7, 8), (1, 11, 12)), ((1, 3, 4), (1, 7, 8), (1, 3, 4))]:
         out.append((af, bf, rf, 'boundary'))
+    # size class: total widths beyond CPython's small-int cache (257, 300, 512, 1000).  The rig computes the width of every wire
+    # independently (sum() of that wire's own format), as two separately written declarations in a user design would; a correct
+    # design that is refused at construction is reported (fxp_build_raises)
+    for f in HUGE:
+        out.append((f, f, f, 'boundary'))
+    for af, bf, rf in [((1, 128, 128), (1, 0, 256), (1, 128, 128)), ((1, 149, 150), (1, 149, 150), (1, 299, 300)), ((1, 255, 256), (1, 127, 128), (1, 255, 256))]:
+        out.append((af, bf, rf, 'boundary'))
     out = [c + ((1, 1, 1, 1),) for c in out]
     # output-width configurations: the flag wires (gt, eq, lt of the comparator, s of FixedPointSign) are the only outputs whose
     # width the constructors leave free (Add/Sub/Mult assert r.getWidth() == sum(rf)); a wider flag wire must read 0/1
@@ -285,7 +294,7 @@ def configs(tier, seed):
     # composition configurations: where the two operand wires live and what they are called (SCOPES).  A block must compute the
     # same function of the VALUES on its ports whether the wires are two top-level wires, a parent's wire and a wire created
     # inside the user block with the same local name (explicitly, or both numbered 'i0' by LogicHelper), or one wire on both ports.
-    for f in small_formats(4 if tier == 'quick' else 6) + [(1, 7, 8), (1, 15, 16), (1, 31, 32)]:
+    for f in small_formats(4 if tier == 'quick' else 6) + [(1, 7, 8), (1, 15, 16), (1, 31, 32), HUGE[0]]:
         for sc in SCOPES[1:]:
             out.append((f, f, f, 'exhaustive' if sum(f) <= (6 if tier == 'quick' else 7) else 'boundary', (1, 1, 1, 1, sc)))
     n = 0
